@@ -110,6 +110,13 @@ var c18NVs = []staleNV{
 	{"void()", func() *gt.T { return gt.Call("void") }, false},
 	{"attr", func() *gt.T { return gt.Attr(gt.Ident("q"), gt.Ident("r")) }, true},
 	{"multi()", func() *gt.T { return gt.Call("multi") }, false},
+	// host functions with declared parameters that return nothing: their
+	// arguments go through the library's GetParam
+	{"sink(1)", func() *gt.T { return gt.Call("sink", gt.Int(1)) }, false},
+	{"sink(1, 2)", func() *gt.T { return gt.Call("sink", gt.Int(1), gt.Str("two")) }, false},
+	{"vsink()", func() *gt.T { return gt.Call("vsink") }, false},
+	{"vsink(1)", func() *gt.T { return gt.Call("vsink", gt.Int(1)) }, false},
+	{"vsink(1, 2, 3)", func() *gt.T { return gt.Call("vsink", gt.Int(1), gt.Bool(true), gt.List(gt.Int(3))) }, false},
 }
 
 var c18Pre = []struct {
@@ -132,6 +139,7 @@ func (c18) Plan(tier string, seed int64) []mon.Workload {
 		{Name: "stale", N: int64(len(c18Positions) * len(c18NVs) * len(c18Pre)), Exhaustive: true},
 		{Name: "programs", N: n},
 		{Name: "scope", N: int64(len(c18Loops) * len(c18Exits) * len(c18Wraps) * len(c18Tails)), Exhaustive: true},
+		{Name: "map-iteration", N: n / 10},
 	}
 }
 
@@ -216,6 +224,9 @@ func (c18) build(c *mon.Ctx, workload string, i int64) c18Case {
 }
 
 func (k c18) Describe(c *mon.Ctx, workload string, i int64) any {
+	if workload == "map-iteration" {
+		return map[string]any{"source": buildMapIter(c.R).Src}
+	}
 	cs := k.build(c, workload, i)
 	if cs.Skip {
 		return "skipped combination"
@@ -224,6 +235,10 @@ func (k c18) Describe(c *mon.Ctx, workload string, i int64) any {
 }
 
 func (k c18) Run(c *mon.Ctx, workload string, i int64) {
+	if workload == "map-iteration" {
+		runMapIter(c, true)
+		return
+	}
 	cs := k.build(c, workload, i)
 	if cs.Skip {
 		return
